@@ -10,6 +10,7 @@ from __future__ import annotations
 
 import collections
 import io
+import json
 from fractions import Fraction
 
 from .. import kernel, score, simfs, smf, world
@@ -123,6 +124,13 @@ class Exec(object):
             return
         self.failures.append({"clause": clause, "detail": detail, "features": features})
         self.trace.ev("fail", clause, detail)
+
+    def do_leg(self, op):
+        r = run_leg(self.prop, op.get("tier", "quick"), 0, op["name"])
+        for f in r.get("failures", []):
+            self.failures.append({"clause": f["clause"], "detail": f["detail"], "features": f["features"]})
+        self.trace.ev("leg", op["name"], len(r.get("failures", [])))
+        self.file_ops += 1
 
     def run(self):
         for i, op in enumerate(self.program["ops"]):
@@ -273,7 +281,7 @@ class Exec(object):
             self.clauses["C16.success_implies_complete"] += 1
             if ret is True and exc is None:
                 if shadow is None or stored != shadow:
-                    self.fail("C16.success_implies_complete", "write reported True but the file holds %d bytes, the complete data is %s bytes (fault %s)" % (len(stored), len(shadow) if shadow is not None else "?", plan), **feats)
+                    self.fail("C16.success_implies_complete", "write reported True but the file holds %d bytes, the complete data is %s bytes (fault %s)" % (len(stored), len(shadow) if shadow is not None else "?", json.dumps(plan, sort_keys=True)), **feats)
                     self.written[path] = None
                     return
                 self.probes["error_plan_did_not_bite"] += 1
@@ -935,7 +943,7 @@ def run_leg(prop, tier, seed, name):
             if got != smf.vlq_encode(v):
                 bad.append((v, got if isinstance(got, str) else got.hex(), smf.vlq_encode(v).hex()))
         if bad:
-            failures.append({"clause": "C16.vlq", "detail": "int_to_varbyte differs from the standard encoding for %d integers, first: %s" % (len(bad), bad[:3]), "features": {"leg": name}, "program": {"prop": prop, "cfg": {}, "ops": [{"op": "leg", "name": name}]}})
+            failures.append({"clause": "C16.vlq", "detail": "int_to_varbyte differs from the standard encoding for %d integers, first: %s" % (len(bad), bad[:3]), "features": {"leg": name}, "program": {"prop": prop, "cfg": {}, "ops": [{"op": "leg", "name": name, "tier": tier}]}})
     elif name == "vlq_inverse":
         from mingus.midi.midi_track import MidiTrack
         import mingus.midi.midi_file_in as mfi
@@ -953,7 +961,7 @@ def run_leg(prop, tier, seed, name):
             if got != (v, len(enc)):
                 bad.append((v, got))
         if bad:
-            failures.append({"clause": "C17.vlq_inverse", "detail": "reader does not invert the writer for %d integers, first: %s" % (len(bad), bad[:3]), "features": {"leg": name}, "program": {"prop": prop, "cfg": {}, "ops": [{"op": "leg", "name": name}]}})
+            failures.append({"clause": "C17.vlq_inverse", "detail": "reader does not invert the writer for %d integers, first: %s" % (len(bad), bad[:3]), "features": {"leg": name}, "program": {"prop": prop, "cfg": {}, "ops": [{"op": "leg", "name": name, "tier": tier}]}})
     elif name in ("bpm_sweep", "header_flips"):
         # run through the ordinary op interpreter so that a failure is an ordinary replayable program
         base = [
